@@ -123,7 +123,8 @@ impl LoggerHandle {
                 spec_stack: Vec::default(),
                 primary_writer,
                 other_writers,
-                clone_counter: Arc::new(()),
+                clone_counter: Arc::new(std::sync::atomic::AtomicUsize::new(1)),
+                counted: true,
             },
             #[cfg(feature = "specfile")]
             oam_specfile_watcher: None,
@@ -498,16 +499,46 @@ impl LogfileSelector {
     }
 }
 
-#[derive(Clone)]
 pub(crate) struct WritersHandle {
     spec: Arc<RwLock<LogSpecification>>,
     spec_stack: Vec<LogSpecification>,
     primary_writer: Arc<PrimaryWriter>,
     other_writers: Arc<HashMap<String, Box<dyn LogWriter>>>,
-    // shared by all clones of a handle, to find out which one is the last
-    clone_counter: Arc<()>,
+    // number of clones that the user can hold; shared by all clones of a handle,
+    // to find out which one is the last
+    clone_counter: Arc<std::sync::atomic::AtomicUsize>,
+    // false for the clone that the specfile watcher holds
+    counted: bool,
+}
+impl Clone for WritersHandle {
+    fn clone(&self) -> Self {
+        self.clone_counter
+            .fetch_add(1, std::sync::atomic::Ordering::AcqRel);
+        Self {
+            spec: Arc::clone(&self.spec),
+            spec_stack: self.spec_stack.clone(),
+            primary_writer: Arc::clone(&self.primary_writer),
+            other_writers: Arc::clone(&self.other_writers),
+            clone_counter: Arc::clone(&self.clone_counter),
+            counted: true,
+        }
+    }
 }
 impl WritersHandle {
+    // a clone that does not keep the writers alive: the last clone held by the user
+    // shuts them down, also while the specfile watcher still exists
+    #[cfg(feature = "specfile")]
+    pub(crate) fn clone_for_watcher(&self) -> Self {
+        Self {
+            spec: Arc::clone(&self.spec),
+            spec_stack: self.spec_stack.clone(),
+            primary_writer: Arc::clone(&self.primary_writer),
+            other_writers: Arc::clone(&self.other_writers),
+            clone_counter: Arc::clone(&self.clone_counter),
+            counted: false,
+        }
+    }
+
     fn set_new_spec(&self, new_spec: LogSpecification) -> Result<(), FlexiLoggerError> {
         #[cfg(feature = "verif_hooks")]
         crate::verif_hooks::point("spec.enter", None).ok();
@@ -534,7 +565,12 @@ impl WritersHandle {
 impl Drop for WritersHandle {
     fn drop(&mut self) {
         // the clones of a handle share the writers: only the last one shuts them down
-        if Arc::strong_count(&self.clone_counter) == 1 {
+        if self.counted
+            && self
+                .clone_counter
+                .fetch_sub(1, std::sync::atomic::Ordering::AcqRel)
+                == 1
+        {
             self.primary_writer.shutdown();
             for writer in self.other_writers.values() {
                 writer.shutdown();
